@@ -5,30 +5,65 @@
 //   "ev"  : the element events (payload constructor / destructor / assignment / injected throw)
 //           that happened during the call, in order, each with the payload object's id,
 //   "res" : what the call returned or threw,
-//   "st"  : what the observers say about each of the three any objects after the call.
-// There is no oracle in here: the driver executes and prints.  Specs/Any.tla decides.
+//   "st"  : what the observers say about each of the five any objects after the call,
+//   "spc" : for every shared_ptr control block the driver handed out, how many owners other than the
+//           driver itself exist (use_count() - 1) - a lifetime observable for payloads without events.
+// There is no oracle in here: the driver executes and prints.  specs/Any.tla decides.
 //
-// * Three any objects live in raw aligned storage; construction and destruction are explicit calls.
-// * Payload types: Small (16 bytes, nothrow move: in place), Big (24 bytes: heap),
-//   STM (16 bytes, move constructor may throw: heap).  Objects are numbered in construction order
-//   by a registry keyed on address; an id is never reused.
+// * Five any objects live in raw aligned storage; construction and destruction are explicit calls.
+// * Instrumented ("tracked") payload types, numbered in construction order by a registry keyed on address:
+//     Small (16 bytes, nothrow move, throwing copy: in place), Big (24 bytes: heap),
+//     STM (16 bytes, move constructor may throw: heap), NC (16 bytes, nothrow copy and move: in place).
+// * Payload types without events ("untracked"): int, std::string, const char* (also from array decay),
+//   int(*)(int) (also from function decay), std::shared_ptr<int>, Ov (16 bytes, alignas(16)),
+//   Box (a struct holding an xtl::any holding a shared_ptr<int>: any inside any).
 // * A global countdown fuse makes the n-th throwing-capable payload constructor of a call throw
-//   (copy constructors of all types, move constructor of STM).
+//   (copy constructors of Small/Big/STM, move constructor of STM).
+// * A call that crashes (signal, sanitizer report, std::terminate) or does not return within the CPU limit
+//   closes the trace with CrashIn/Crash lines and ends the process; the runner restarts the driver on the
+//   remaining executions.  Build flavours (macros of xany.hpp, compiler, optimisation) are chosen by the runner
+//   and named in every Reset line.
+#include <cstdio>
 #include "xtl/xany.hpp"
 #include "vjson.hpp"
 
 #include <iostream>
 #include <map>
+#include <memory>
 #include <new>
 #include <set>
 #include <string>
 #include <typeinfo>
 #include <utility>
+#include <vector>
+#include <sys/time.h>
+
+#ifndef C06_FLAVOUR
+#define C06_FLAVOUR "std"
+#endif
+// call forms on which the two published specifications of any_cast differ: the runner probes whether they compile in this build
+#ifndef C06_HAVE_LR
+#define C06_HAVE_LR 0      // any_cast<U&>(any&&)
+#endif
+#ifndef C06_HAVE_XR
+#define C06_HAVE_XR 0      // any_cast<U&&>(any&&)
+#endif
+#ifndef C06_HAVE_CXR
+#define C06_HAVE_CXR 0     // any_cast<const U&&>(any&&)
+#endif
+#ifdef XTL_NO_EXCEPTIONS
+#define C06_NOEXC 1
+#else
+#define C06_NOEXC 0
+#endif
 
 namespace
 {
     const long long MOVED = -1;    // value a payload object has after being moved from
-    const long long UNREAD = -9;   // the driver refused to read a destroyed object
+    const long long UNREAD = -9;   // the driver refused to read a destroyed object / the object is not what it should be
+
+    const long long WILD = -8;     // a value that does not fit the trace format (TLC integers are 32 bit): some wild read
+    long long clamp(long long v) { return (v > 2147483647LL || v < -2147483647LL) ? WILD : v; }
 
     struct fuse_error
     {
@@ -71,6 +106,11 @@ namespace
     int g_fuse = 0;             // 0 = disarmed; n > 0: the n-th throwing-capable constructor throws
     std::string g_ev;           // element events of the current call (JSON array body)
     std::string g_call;         // the call being executed (for the crash line)
+    std::string g_op;
+    int g_k = 0;
+    std::string g_args;
+    volatile unsigned long g_callno = 0, g_seen = ~0ul;
+    volatile bool g_incall = false;
 
     void ev(const char* e, int id, const char* t, const char* kind, int src, long long v)
     {
@@ -78,7 +118,7 @@ namespace
         g_ev += "{\"e\":\"";
         g_ev += e;
         g_ev += "\",\"id\":" + std::to_string(id) + ",\"t\":\"" + t + "\",\"kind\":\"" + kind + "\",\"src\":" + std::to_string(src)
-                + ",\"v\":" + std::to_string(v) + "}";
+                + ",\"v\":" + std::to_string(clamp(v)) + "}";
     }
 
     struct mk
@@ -102,8 +142,13 @@ namespace
     {
         static const char* get() { return "STM"; }
     };
+    template <>
+    struct tname<3>
+    {
+        static const char* get() { return "NC"; }
+    };
 
-    template <int TAG, int WORDS, bool NX>
+    template <int TAG, int WORDS, bool NX, bool NXC>
     struct payload
     {
         long long val;
@@ -128,11 +173,11 @@ namespace
             ev("ctor", id, name(), "value", 0, val);
         }
 
-        payload(const payload& o)
+        payload(const payload& o) noexcept(NXC)
         {
             int sid = R.id_at(&o);
             bool sl = R.live_at(&o);
-            trip("copy", sid);
+            if (!NXC) trip("copy", sid);
             val = sl ? o.val : UNREAD;
             for (int i = 0; i < WORDS - 1; ++i) pad[i] = 0x5a5a5a5a;
             int id = R.born(this);
@@ -189,40 +234,312 @@ namespace
         }
     };
 
-    using Small = payload<0, 2, true>;
-    using Big = payload<1, 3, true>;
-    using STM = payload<2, 2, false>;
+    using Small = payload<0, 2, true, false>;
+    using Big = payload<1, 3, true, false>;
+    using STM = payload<2, 2, false, false>;
+    using NC = payload<3, 2, true, true>;
 
-    static_assert(sizeof(Small) == 2 * sizeof(void*), "Small sits exactly on the in-place threshold");
-    static_assert(sizeof(Big) == 3 * sizeof(void*), "Big is the smallest size above the threshold");
+    struct alignas(16) Ov
+    {
+        long long v;
+        long long pad;
+    };
+
+    struct Box      // any inside any (xtl::any cannot be nested directly: its converting constructor excludes any itself)
+    {
+        xtl::any in;
+    };
+
+    using Fn = int (*)(int);
+    using CStr = const char*;
+    using Sp = std::shared_ptr<int>;
+    using Str = std::string;
+
+    // facts about the payload types the property's classes rest on (about the fixtures, not about xtl)
+    const size_t W = sizeof(void*);
+    static_assert(sizeof(Small) == 2 * W, "Small sits exactly on the in-place threshold");
+    static_assert(sizeof(Big) == 3 * W, "Big is the smallest size above the threshold");
     static_assert(sizeof(STM) == sizeof(Small), "STM differs from Small only by its throwing move");
-    static_assert(std::is_nothrow_move_constructible<Small>::value && std::is_nothrow_move_constructible<Big>::value, "");
+    static_assert(sizeof(NC) == sizeof(Small), "NC differs from Small only by its non-throwing copy");
+    static_assert(std::is_nothrow_move_constructible<Small>::value && !std::is_nothrow_copy_constructible<Small>::value,
+                  "Small: nothrow move, throwing copy (is_nothrow_move_constructible<const Small> is false)");
+    static_assert(!std::is_nothrow_move_constructible<const Small>::value, "a const Small rvalue binds to the throwing copy constructor");
+    static_assert(std::is_nothrow_move_constructible<Big>::value, "");
     static_assert(!std::is_nothrow_move_constructible<STM>::value, "");
+    static_assert(std::is_nothrow_move_constructible<NC>::value && std::is_nothrow_copy_constructible<NC>::value, "NC: nothrow copy and move");
+    static_assert(alignof(Small) <= alignof(void*) && alignof(NC) <= alignof(void*), "");
+    static_assert(sizeof(Ov) == 2 * W && alignof(Ov) == 16 && alignof(Ov) > alignof(void*) && alignof(Ov) <= alignof(std::max_align_t),
+                  "Ov: fits by size, not by alignment; plain new is sufficient for it");
+    static_assert(sizeof(Sp) == 2 * W && std::is_nothrow_move_constructible<Sp>::value && alignof(Sp) <= alignof(void*), "shared_ptr: exactly two words");
+    static_assert(sizeof(Str) > 2 * W && std::is_nothrow_move_constructible<Str>::value, "std::string: too large");
+    static_assert(sizeof(int) < 2 * W && sizeof(CStr) < 2 * W && sizeof(Fn) < 2 * W, "");
+
+    // ------------------------------------------------------------------ untracked fixtures
+    const char CPOOL[8][4] = {"ab0", "ab1", "ab2", "ab3", "ab4", "ab5", "ab6", "ab7"};
+    int fn0(int x) { return x + 0; }
+    int fn1(int x) { return x + 1; }
+    int fn2(int x) { return x + 2; }
+    int fn3(int x) { return x + 3; }
+    const Fn FPOOL[4] = {fn0, fn1, fn2, fn3};
+
+    std::map<int, Sp> G_SP;   // the driver's own owner of every control block
+    Sp master(int v)
+    {
+        auto it = G_SP.find(v);
+        if (it == G_SP.end()) it = G_SP.emplace(v, std::make_shared<int>(v)).first;
+        return it->second;
+    }
+
+    std::string mkstr(long long v)
+    {
+        std::string s = "s" + std::to_string(v);
+        if (v % 2) s += std::string(30, 'x');    // odd values: beyond the small-string buffer
+        return s;
+    }
+    long long rdstr(const std::string& s)
+    {
+        if (s.empty()) return MOVED;
+        if (s[0] != 's') return UNREAD;
+        size_t i = 1;
+        long long v = 0;
+        bool neg = false;
+        if (i < s.size() && s[i] == '-') { neg = true; ++i; }
+        size_t d0 = i;
+        while (i < s.size() && s[i] >= '0' && s[i] <= '9') v = v * 10 + (s[i++] - '0');
+        if (i == d0) return UNREAD;
+        if (neg) v = -v;
+        return s == mkstr(v) ? v : UNREAD;
+    }
+
+    [[noreturn]] void script_error(const std::string& m)
+    {
+        std::fprintf(stderr, "script error: %s in %s\n", m.c_str(), g_call.c_str());
+        std::exit(3);
+    }
+
+    // per type: name, whether it has element events, the caller's value, reading and writing a value
+    template <class U>
+    struct tt;
+
+#define TRACKED_TT(U)                                                                   \
+    template <>                                                                         \
+    struct tt<U>                                                                        \
+    {                                                                                   \
+        static const bool tracked = true;                                               \
+        static const char* name() { return U::name(); }                                 \
+        struct arg                                                                      \
+        {                                                                               \
+            U x;                                                                        \
+            explicit arg(int v) : x(v, mk()) {}                                         \
+        };                                                                              \
+        static long long read(const U& u) { return R.live_at(&u) ? u.val : UNREAD; }    \
+        static void write(U& u, int v) { u.set(v); }                                    \
+    };
+    TRACKED_TT(Small)
+    TRACKED_TT(Big)
+    TRACKED_TT(STM)
+    TRACKED_TT(NC)
+
+    template <>
+    struct tt<int>
+    {
+        static const bool tracked = false;
+        static const char* name() { return "Int"; }
+        struct arg
+        {
+            int x;
+            explicit arg(int v) : x(v) {}
+        };
+        static long long read(const int& u) { return u; }
+        static void write(int& u, int v) { u = v; }
+    };
+    template <>
+    struct tt<Str>
+    {
+        static const bool tracked = false;
+        static const char* name() { return "Str"; }
+        struct arg
+        {
+            Str x;
+            explicit arg(int v) : x(mkstr(v)) {}
+        };
+        static long long read(const Str& u) { return rdstr(u); }
+        static void write(Str& u, int v) { u = mkstr(v); }
+    };
+    template <>
+    struct tt<CStr>
+    {
+        static const bool tracked = false;
+        static const char* name() { return "CStr"; }
+        static CStr pool(int v)
+        {
+            if (v < 0 || v >= 8) script_error("CStr value outside the pool");
+            return CPOOL[v];
+        }
+        struct arg
+        {
+            CStr x;
+            explicit arg(int v) : x(pool(v)) {}
+        };
+        static long long read(const CStr& u)
+        {
+            for (int i = 0; i < 8; ++i)
+                if (u == CPOOL[i]) return i;
+            return UNREAD;
+        }
+        static void write(CStr& u, int v) { u = pool(v); }
+    };
+    template <>
+    struct tt<Fn>
+    {
+        static const bool tracked = false;
+        static const char* name() { return "Fn"; }
+        static Fn pool(int v)
+        {
+            if (v < 0 || v >= 4) script_error("Fn value outside the pool");
+            return FPOOL[v];
+        }
+        struct arg
+        {
+            Fn x;
+            explicit arg(int v) : x(pool(v)) {}
+        };
+        static long long read(const Fn& u)
+        {
+            for (int i = 0; i < 4; ++i)
+                if (u == FPOOL[i]) return (u(40) == 40 + i) ? i : UNREAD;
+            return UNREAD;
+        }
+        static void write(Fn& u, int v) { u = pool(v); }
+    };
+    template <>
+    struct tt<Sp>
+    {
+        static const bool tracked = false;
+        static const char* name() { return "Sp"; }
+        struct arg
+        {
+            Sp x;
+            explicit arg(int v) : x(master(v)) {}
+        };
+        static long long read(const Sp& u) { return u ? static_cast<long long>(*u) : MOVED; }
+        static void write(Sp& u, int v) { u = master(v); }
+    };
+    template <>
+    struct tt<Ov>
+    {
+        static const bool tracked = false;
+        static const char* name() { return "Ov"; }
+        struct arg
+        {
+            Ov x;
+            explicit arg(int v) { x.v = v; x.pad = 0x5a5a5a5a; }
+        };
+        static long long read(const Ov& u) { return u.pad == 0x5a5a5a5a ? u.v : UNREAD; }
+        static void write(Ov& u, int v) { u.v = v; }
+    };
+    template <>
+    struct tt<Box>
+    {
+        static const bool tracked = false;
+        static const char* name() { return "Nest"; }
+        struct arg
+        {
+            Box x;
+            explicit arg(int v) : x{xtl::any(master(v))} {}
+        };
+        static long long read(const Box& u)
+        {
+            if (!u.in.has_value()) return MOVED;
+            const Sp* p = xtl::any_cast<Sp>(&u.in);
+            return p ? tt<Sp>::read(*p) : UNREAD;
+        }
+        static void write(Box& u, int v) { u.in = master(v); }
+    };
+    // cast targets that are never the type of a stored object
+    template <>
+    struct tt<char*>
+    {
+        static const bool tracked = false;
+        static const char* name() { return "CharP"; }
+        static long long read(char* const&) { return UNREAD; }
+    };
+    template <>
+    struct tt<xtl::any>
+    {
+        static const bool tracked = false;
+        static const char* name() { return "AnyT"; }
+        static long long read(const xtl::any&) { return UNREAD; }
+    };
 
     // ------------------------------------------------------------------ the objects under test
-    const int NA = 3;
+    const int NA = 5;
     struct slots_t
     {
         alignas(16) unsigned char mem[NA][sizeof(xtl::any) + 16];
     } S;
-    bool C[NA] = {false, false, false};   // constructed (driver's own bookkeeping of what it called)
+    bool C[NA] = {false, false, false, false, false};   // constructed (driver's own bookkeeping of what it called)
 
     void* slot(int k) { return static_cast<void*>(S.mem[k]); }
     xtl::any& A(int k) { return *reinterpret_cast<xtl::any*>(S.mem[k]); }
 
+    std::map<const void*, int> LOC;     // addresses of untracked payload objects, numbered per execution
+    int loc_of(const void* p)
+    {
+        if (!p) return 0;
+        auto it = LOC.find(p);
+        if (it == LOC.end()) it = LOC.emplace(p, int(LOC.size()) + 1).first;
+        return it->second;
+    }
+
+#define FOR_STORED(X) X(Small) X(Big) X(STM) X(NC) X(int) X(Str) X(CStr) X(Fn) X(Sp) X(Ov) X(Box)
+
     const char* type_name(const std::type_info& ti)
     {
         if (ti == typeid(void)) return "void";
-        if (ti == typeid(Small)) return "Small";
-        if (ti == typeid(Big)) return "Big";
-        if (ti == typeid(STM)) return "STM";
-        if (ti == typeid(int)) return "Int";
+#define TN(U) if (ti == typeid(U)) return tt<U>::name();
+        FOR_STORED(TN)
+#undef TN
+        if (ti == typeid(char*)) return "CharP";
+        if (ti == typeid(xtl::any)) return "AnyT";
+        if (ti == typeid(char[4]) || ti == typeid(const char[4])) return "Arr";
         return "?";
     }
 
-    long long read_val(const void* p, long long raw)
+    struct seen_t
     {
-        return R.live_at(p) ? raw : UNREAD;
+        const void* p = nullptr;
+        long long v = 0;
+        int id = 0;
+        bool al = true;
+        bool tracked = false;
+        std::string hits, hitm;
+    };
+
+    template <class U>
+    void look(const xtl::any& a, xtl::any& m, seen_t& s)
+    {
+        const U* q = xtl::any_cast<U>(&a);          // route 1: const any*
+        U* qm = xtl::any_cast<U>(&m);               // route 2: any*
+        if (q)
+        {
+            if (!s.hits.empty()) s.hits += ',';
+            s.hits += std::string("\"") + tt<U>::name() + "\"";
+            if (!s.p)
+            {
+                s.p = q;
+                s.tracked = tt<U>::tracked;
+                s.al = (reinterpret_cast<uintptr_t>(static_cast<const void*>(q)) % alignof(U)) == 0;
+                s.id = tt<U>::tracked ? R.id_at(q) : 0;
+                s.v = tt<U>::read(*q);
+            }
+        }
+        if (qm)
+        {
+            if (!s.hitm.empty()) s.hitm += ',';
+            s.hitm += std::string("\"") + tt<U>::name() + "\"";
+            if (static_cast<const void*>(qm) != static_cast<const void*>(q)) s.hitm += ",\"!other-address\"";
+        }
     }
 
     std::string proj(int k)
@@ -230,20 +547,45 @@ namespace
         vj::out o;
         if (!C[k])
         {
-            o.kv("c", 0).kb("has", false).kb("emp", false).ks("ty", "").kv("id", 0).kv("v", 0).kv("inp", 0);
+            o.kv("c", 0);
             return o.obj();
         }
         const xtl::any& a = A(k);
-        const void* p = nullptr;
-        long long v = 0;
-        if (const Small* q = xtl::any_cast<Small>(&a)) { p = q; v = read_val(q, R.live_at(q) ? q->val : 0); }
-        else if (const Big* q2 = xtl::any_cast<Big>(&a)) { p = q2; v = read_val(q2, R.live_at(q2) ? q2->val : 0); }
-        else if (const STM* q3 = xtl::any_cast<STM>(&a)) { p = q3; v = read_val(q3, R.live_at(q3) ? q3->val : 0); }
+        seen_t s;
+#define LK(U) look<U>(a, A(k), s);
+        FOR_STORED(LK)
+        LK(char*)
+        LK(xtl::any)
+#undef LK
         const unsigned char* b = S.mem[k];
-        bool inp = p != nullptr && static_cast<const unsigned char*>(p) >= b && static_cast<const unsigned char*>(p) < b + sizeof(xtl::any);
+        const unsigned char* p = static_cast<const unsigned char*>(s.p);
+        bool inp = p != nullptr && p >= b && p < b + sizeof(xtl::any);
         o.kv("c", 1).kb("has", a.has_value()).kb("emp", a.empty()).ks("ty", type_name(a.type()))
-            .kv("id", p ? R.id_at(p) : 0).kv("v", v).kv("inp", inp ? 1 : 0);
+            .kv("id", s.id).kv("v", clamp(s.v)).kv("loc", (s.p && !s.tracked) ? loc_of(s.p) : 0).kv("inp", inp ? 1 : 0).kb("al", s.al)
+            .kraw("hits", "[" + s.hits + "]").kraw("hitm", "[" + s.hitm + "]");
         return o.obj();
+    }
+
+    std::string spc()
+    {
+        std::string s = "[";
+        bool first = true;
+        for (auto& e : G_SP)
+        {
+            long n = e.second.use_count() - 1;
+            if (n == 0) continue;
+            if (!first) s += ',';
+            first = false;
+            s += "{\"v\":" + std::to_string(e.first) + ",\"n\":" + std::to_string(n) + "}";
+        }
+        return s + "]";
+    }
+
+    std::string state()
+    {
+        std::string st = "[";
+        for (int k = 0; k < NA; ++k) st += (k ? "," : "") + proj(k);
+        return st + "]";
     }
 
     // ------------------------------------------------------------------ results
@@ -253,34 +595,34 @@ namespace
         bool null = false;
         int id = 0;
         long long v = 0;
+        int loc = 0;
         std::string ty = "";
         std::string json() const
         {
             vj::out o;
-            o.ks("exc", exc).kb("null", null).kv("id", id).kv("v", v).ks("ty", ty);
+            o.ks("exc", exc).kb("null", null).kv("id", id).kv("v", clamp(v)).kv("loc", loc).ks("ty", ty);
             return o.obj();
         }
     };
 
-    template <class U>
-    long long valof(const U& u) { return read_val(&u, R.live_at(&u) ? u.val : 0); }
-    long long valof(const int& u) { return u; }
-
+    // p points into the any (pointer / reference forms): report which object it is
     template <class U>
     void setp(result& r, const U* p)
     {
         r.null = (p == nullptr);
         if (p)
         {
-            r.id = R.id_at(p);
-            r.v = valof(*p);
+            if (tt<U>::tracked) r.id = R.id_at(p);
+            else r.loc = loc_of(p);
+            r.v = tt<U>::read(*p);
         }
     }
-
-    [[noreturn]] void script_error(const std::string& m)
+    // x is a new object returned by value
+    template <class U>
+    void setv(result& r, const U& x)
     {
-        std::fprintf(stderr, "script error: %s in %s\n", m.c_str(), g_call.c_str());
-        std::exit(3);
+        if (tt<U>::tracked) r.id = R.id_at(&x);
+        r.v = tt<U>::read(x);
     }
 
     // any_cast in all its forms; U is the target's decayed type
@@ -289,45 +631,144 @@ namespace
     {
         xtl::any& m = A(k);
         const xtl::any& c = m;
-        if (f == "p_m") setp(r, xtl::any_cast<U>(&m));
+        if (f == "p_m") setp<U>(r, xtl::any_cast<U>(&m));
         else if (f == "p_mc") setp<U>(r, xtl::any_cast<const U>(&m));
         else if (f == "p_c") setp<U>(r, xtl::any_cast<U>(&c));
         else if (f == "p_cc") setp<U>(r, xtl::any_cast<const U>(&c));
         else if (f == "p_n") setp<U>(r, xtl::any_cast<U>(static_cast<xtl::any*>(nullptr)));
         else if (f == "p_nc") setp<U>(r, xtl::any_cast<U>(static_cast<const xtl::any*>(nullptr)));
-        else if (f == "v_m") { U x = xtl::any_cast<U>(m); setp(r, &x); }
-        else if (f == "v_mc") { const U x = xtl::any_cast<const U>(m); setp(r, &x); }
-        else if (f == "v_c") { U x = xtl::any_cast<U>(c); setp(r, &x); }
-        else if (f == "v_cc") { const U x = xtl::any_cast<const U>(c); setp(r, &x); }
-        else if (f == "v_r") { U x = xtl::any_cast<U>(std::move(m)); setp(r, &x); }
-        else if (f == "r_m") { U& x = xtl::any_cast<U&>(m); setp(r, &x); }
-        else if (f == "r_mc") { const U& x = xtl::any_cast<const U&>(m); setp(r, &x); }
-        else if (f == "r_c") { const U& x = xtl::any_cast<const U&>(c); setp(r, &x); }
-        else if (f == "r_r") { const U& x = xtl::any_cast<const U&>(std::move(m)); setp(r, &x); }
+        else if (f == "v_m") { U x = xtl::any_cast<U>(m); setv<U>(r, x); }
+        else if (f == "v_mc") { const U x = xtl::any_cast<const U>(m); setv<U>(r, x); }
+        else if (f == "v_c") { U x = xtl::any_cast<U>(c); setv<U>(r, x); }
+        else if (f == "v_cc") { const U x = xtl::any_cast<const U>(c); setv<U>(r, x); }
+        else if (f == "v_r") { U x = xtl::any_cast<U>(std::move(m)); setv<U>(r, x); }
+        else if (f == "v_rc") { const U x = xtl::any_cast<const U>(std::move(m)); setv<U>(r, x); }
+        else if (f == "r_m") { U& x = xtl::any_cast<U&>(m); setp<U>(r, &x); }
+        else if (f == "r_mc") { const U& x = xtl::any_cast<const U&>(m); setp<U>(r, &x); }
+        else if (f == "r_c") { const U& x = xtl::any_cast<const U&>(c); setp<U>(r, &x); }
+        else if (f == "r_r") { const U& x = xtl::any_cast<const U&>(std::move(m)); setp<U>(r, &x); }
+#if C06_HAVE_LR
+        else if (f == "lr_r") { U& x = xtl::any_cast<U&>(std::move(m)); setp<U>(r, &x); }
+#endif
+#if C06_HAVE_XR
+        else if (f == "x_r") { U&& x = xtl::any_cast<U&&>(std::move(m)); setp<U>(r, &x); }
+#endif
+#if C06_HAVE_CXR
+        else if (f == "cx_r") { const U&& x = xtl::any_cast<const U&&>(std::move(m)); setp<U>(r, &x); }
+#endif
         else script_error("unknown cast form " + f);
     }
+
+    // any_cast<char[4]>: an array type is never the (decayed) type of a stored object; pointer forms only
+    void do_cast_arr(int k, const std::string& f, result& r)
+    {
+        xtl::any& m = A(k);
+        const xtl::any& c = m;
+        const void* p = nullptr;
+        if (f == "p_m") p = xtl::any_cast<char[4]>(&m);
+        else if (f == "p_mc") p = xtl::any_cast<const char[4]>(&m);
+        else if (f == "p_c") p = xtl::any_cast<char[4]>(&c);
+        else if (f == "p_cc") p = xtl::any_cast<const char[4]>(&c);
+        else if (f == "p_n") p = xtl::any_cast<const char[4]>(static_cast<xtl::any*>(nullptr));
+        else if (f == "p_nc") p = xtl::any_cast<const char[4]>(static_cast<const xtl::any*>(nullptr));
+        else script_error("cast form " + f + " cannot be written for an array type");
+        r.null = (p == nullptr);
+        if (p) { r.loc = loc_of(p); r.v = UNREAD; }
+    }
+
+    template <class T>
+    struct by_form
+    {
+        static void construct(int k, T& x, const std::string& f, int)
+        {
+            if (f == "lv") new (slot(k)) xtl::any(x);
+            else if (f == "clv") new (slot(k)) xtl::any(static_cast<const T&>(x));
+            else if (f == "rv") new (slot(k)) xtl::any(std::move(x));
+            else if (f == "crv") new (slot(k)) xtl::any(static_cast<const T&&>(x));
+            else script_error("unknown form " + f);
+        }
+        static void assign(int k, T& x, const std::string& f, int)
+        {
+            if (f == "lv") A(k) = x;
+            else if (f == "clv") A(k) = static_cast<const T&>(x);
+            else if (f == "rv") A(k) = std::move(x);
+            else if (f == "crv") A(k) = static_cast<const T&&>(x);
+            else script_error("unknown form " + f);
+        }
+    };
+    // const char* from an array, int(*)(int) from a function: the stored type is the decayed type
+    template <>
+    struct by_form<CStr>
+    {
+        static void construct(int k, CStr& x, const std::string& f, int v)
+        {
+            if (f == "decay") { tt<CStr>::pool(v); new (slot(k)) xtl::any(CPOOL[v]); }
+            else if (f == "lv") new (slot(k)) xtl::any(x);
+            else if (f == "clv") new (slot(k)) xtl::any(static_cast<const CStr&>(x));
+            else if (f == "rv") new (slot(k)) xtl::any(std::move(x));
+            else if (f == "crv") new (slot(k)) xtl::any(static_cast<const CStr&&>(x));
+            else script_error("unknown form " + f);
+        }
+        static void assign(int k, CStr& x, const std::string& f, int v)
+        {
+            if (f == "decay") { tt<CStr>::pool(v); A(k) = CPOOL[v]; }
+            else if (f == "lv") A(k) = x;
+            else if (f == "clv") A(k) = static_cast<const CStr&>(x);
+            else if (f == "rv") A(k) = std::move(x);
+            else if (f == "crv") A(k) = static_cast<const CStr&&>(x);
+            else script_error("unknown form " + f);
+        }
+    };
+    template <>
+    struct by_form<Fn>
+    {
+        static void construct(int k, Fn& x, const std::string& f, int v)
+        {
+            if (f == "decay")
+            {
+                tt<Fn>::pool(v);
+                if (v == 0) new (slot(k)) xtl::any(fn0);
+                else if (v == 1) new (slot(k)) xtl::any(fn1);
+                else if (v == 2) new (slot(k)) xtl::any(fn2);
+                else new (slot(k)) xtl::any(fn3);
+            }
+            else if (f == "lv") new (slot(k)) xtl::any(x);
+            else if (f == "clv") new (slot(k)) xtl::any(static_cast<const Fn&>(x));
+            else if (f == "rv") new (slot(k)) xtl::any(std::move(x));
+            else if (f == "crv") new (slot(k)) xtl::any(static_cast<const Fn&&>(x));
+            else script_error("unknown form " + f);
+        }
+        static void assign(int k, Fn& x, const std::string& f, int v)
+        {
+            if (f == "decay")
+            {
+                tt<Fn>::pool(v);
+                if (v == 0) A(k) = fn0;
+                else if (v == 1) A(k) = fn1;
+                else if (v == 2) A(k) = fn2;
+                else A(k) = fn3;
+            }
+            else if (f == "lv") A(k) = x;
+            else if (f == "clv") A(k) = static_cast<const Fn&>(x);
+            else if (f == "rv") A(k) = std::move(x);
+            else if (f == "crv") A(k) = static_cast<const Fn&&>(x);
+            else script_error("unknown form " + f);
+        }
+    };
 
     template <class T>
     void do_construct(int k, int v, const std::string& f)
     {
-        T x(v, mk());     // the caller's value; its construction and destruction are part of the call
-        if (f == "lv") new (slot(k)) xtl::any(x);
-        else if (f == "clv") new (slot(k)) xtl::any(static_cast<const T&>(x));
-        else if (f == "rv") new (slot(k)) xtl::any(std::move(x));
-        else if (f == "crv") new (slot(k)) xtl::any(static_cast<const T&&>(x));
-        else script_error("unknown form " + f);
+        typename tt<T>::arg h(v);     // the caller's value; its construction and destruction are part of the call
+        by_form<T>::construct(k, h.x, f, v);
         C[k] = true;
     }
 
     template <class T>
     void do_assign_value(int k, int v, const std::string& f)
     {
-        T x(v, mk());
-        if (f == "lv") A(k) = x;
-        else if (f == "clv") A(k) = static_cast<const T&>(x);
-        else if (f == "rv") A(k) = std::move(x);
-        else if (f == "crv") A(k) = static_cast<const T&&>(x);
-        else script_error("unknown form " + f);
+        typename tt<T>::arg h(v);
+        by_form<T>::assign(k, h.x, f, v);
     }
 
     template <class T>
@@ -337,8 +778,9 @@ namespace
         r.null = (p == nullptr);
         if (p)
         {
-            r.id = R.id_at(p);
-            p->set(v);
+            if (tt<T>::tracked) r.id = R.id_at(p);
+            else r.loc = loc_of(p);
+            tt<T>::write(*p, v);
             r.v = v;
         }
     }
@@ -372,10 +814,12 @@ namespace
         for (int k = 0; k < NA; ++k)
             if (C[k])
             {
-                A(k).~any();
                 C[k] = false;
+                A(k).~any();
             }
         g_ev.clear();
+        G_SP.clear();
+        LOC.clear();
     }
 
     void need(bool c, const char* what)
@@ -383,33 +827,60 @@ namespace
         if (!c) throw desync{std::string("driver precondition: ") + what};
     }
 
+#define BY_TYPE(t, CALL)                                  \
+    if (t == "Small") { CALL(Small); }                    \
+    else if (t == "Big") { CALL(Big); }                   \
+    else if (t == "STM") { CALL(STM); }                   \
+    else if (t == "NC") { CALL(NC); }                     \
+    else if (t == "Int") { CALL(int); }                   \
+    else if (t == "Str") { CALL(Str); }                   \
+    else if (t == "CStr") { CALL(CStr); }                 \
+    else if (t == "Fn") { CALL(Fn); }                     \
+    else if (t == "Sp") { CALL(Sp); }                     \
+    else if (t == "Ov") { CALL(Ov); }                     \
+    else if (t == "Nest") { CALL(Box); }
+
     void perform(const std::string& op, int k, const vj::value& a, result& r)
     {
         int j = int(a.num("j", 1)) - 1;
+        bool nc = a.num("nc", 0) != 0;      // pass the source any as a non-const lvalue
         if (op == "DefaultConstruct") { need(!C[k], "raw"); new (slot(k)) xtl::any(); C[k] = true; }
         else if (op == "Construct")
         {
             need(!C[k], "raw");
             const std::string& t = a.str("t");
             int v = int(a.num("v"));
-            if (t == "Small") do_construct<Small>(k, v, a.str("form"));
-            else if (t == "Big") do_construct<Big>(k, v, a.str("form"));
-            else if (t == "STM") do_construct<STM>(k, v, a.str("form"));
+            const std::string& f = a.str("form");
+#define CALL(U) do_construct<U>(k, v, f)
+            BY_TYPE(t, CALL)
             else script_error("type");
+#undef CALL
         }
-        else if (op == "CopyConstruct") { need(!C[k] && C[j] && j != k, "raw<-constructed"); new (slot(k)) xtl::any(static_cast<const xtl::any&>(A(j))); C[k] = true; }
+        else if (op == "CopyConstruct")
+        {
+            need(!C[k] && C[j] && j != k, "raw<-constructed");
+            if (nc) new (slot(k)) xtl::any(A(j));
+            else new (slot(k)) xtl::any(static_cast<const xtl::any&>(A(j)));
+            C[k] = true;
+        }
         else if (op == "MoveConstruct") { need(!C[k] && C[j] && j != k, "raw<-constructed"); new (slot(k)) xtl::any(std::move(A(j))); C[k] = true; }
-        else if (op == "CopyAssign") { need(C[k] && C[j], "constructed"); A(k) = static_cast<const xtl::any&>(A(j)); }
+        else if (op == "CopyAssign")
+        {
+            need(C[k] && C[j], "constructed");
+            if (nc) A(k) = A(j);
+            else A(k) = static_cast<const xtl::any&>(A(j));
+        }
         else if (op == "MoveAssign") { need(C[k] && C[j], "constructed"); A(k) = std::move(A(j)); }
         else if (op == "AssignValue")
         {
             need(C[k], "constructed");
             const std::string& t = a.str("t");
             int v = int(a.num("v"));
-            if (t == "Small") do_assign_value<Small>(k, v, a.str("form"));
-            else if (t == "Big") do_assign_value<Big>(k, v, a.str("form"));
-            else if (t == "STM") do_assign_value<STM>(k, v, a.str("form"));
+            const std::string& f = a.str("form");
+#define CALL(U) do_assign_value<U>(k, v, f)
+            BY_TYPE(t, CALL)
             else script_error("type");
+#undef CALL
         }
         else if (op == "Swap") { need(C[k] && C[j], "constructed"); A(k).swap(A(j)); }
         else if (op == "StdSwap") { need(C[k] && C[j], "constructed"); std::swap(A(k), A(j)); }
@@ -425,34 +896,54 @@ namespace
             const std::string& f = a.str("form");
             need(C[k] || f == "p_n" || f == "p_nc", "constructed");
             const std::string& t = a.str("t");
-            if (t == "Small") do_cast<Small>(k, f, r);
-            else if (t == "Big") do_cast<Big>(k, f, r);
-            else if (t == "STM") do_cast<STM>(k, f, r);
-            else if (t == "Int") do_cast<int>(k, f, r);
+#define CALL(U) do_cast<U>(k, f, r)
+            BY_TYPE(t, CALL)
+            else if (t == "CharP") { CALL(char*); }
+            else if (t == "AnyT") { CALL(xtl::any); }
+            else if (t == "Arr") do_cast_arr(k, f, r);
             else script_error("type");
+#undef CALL
         }
         else if (op == "SetVia")
         {
             need(C[k], "constructed");
             const std::string& t = a.str("t");
             int v = int(a.num("v"));
-            if (t == "Small") do_set_via<Small>(k, v, r);
-            else if (t == "Big") do_set_via<Big>(k, v, r);
-            else if (t == "STM") do_set_via<STM>(k, v, r);
+#define CALL(U) do_set_via<U>(k, v, r)
+            BY_TYPE(t, CALL)
             else script_error("type");
+#undef CALL
         }
         else script_error("unknown op " + op);
     }
 
+    void put(const std::string& s)
+    {
+        if (::write(1, s.c_str(), s.size()) < 0) {}
+    }
     void partial_line()
     {
         // a crash inside a call: show what had happened so far (diagnostics only), then the Crash event
-        std::string s = "\n{\"op\":\"CrashIn\",\"call\":" + (g_call.empty() ? std::string("null") : g_call) + ",\"ev\":[" + g_ev + "]}";
-        if (::write(1, s.c_str(), s.size()) < 0) {}
+        put("\n{\"op\":\"CrashIn\",\"call\":" + (g_call.empty() ? std::string("{\"op\":\"(end of script: remaining objects destroyed)\",\"k\":0,\"a\":{}}") : g_call) + ",\"ev\":[" + g_ev + "]}");
     }
     void my_terminate()
     {
         std::fflush(stdout);
+#if C06_NOEXC
+        // XTL_NO_EXCEPTIONS: a failing any_cast ends the program through std::terminate; that IS the call's outcome
+        if (g_incall && g_op == "Cast")
+        {
+            g_incall = false;
+            result r;
+            r.exc = "terminate";
+            std::string evs = g_ev;
+            g_ev.clear();
+            std::string st = state();
+            put("{\"op\":\"Cast\",\"k\":" + std::to_string(g_k + 1) + ",\"a\":" + g_args + ",\"ev\":[" + evs + "],\"res\":" + r.json() + ",\"st\":" + st
+                + ",\"spc\":" + spc() + "}\n");
+            _exit(0);
+        }
+#endif
         partial_line();
         vj::on_terminate();
     }
@@ -462,15 +953,50 @@ namespace
         partial_line();
         vj::on_signal(sig);
     }
+    // CPU-time watchdog: the timer fires every 2 s of CPU time (C06_CALL_CPU_S); two ticks inside the same call = the call hangs
+    void my_alarm(int)
+    {
+        if (g_incall && g_seen == g_callno)
+        {
+            std::fflush(stdout);
+            partial_line();
+            vj::crash_line("hang: the call did not return within the CPU limit");
+            _exit(0);
+        }
+        g_seen = g_callno;
+    }
 }
 
 int main()
 {
     vj::install_crash_handlers();
     std::set_terminate(my_terminate);
-    std::signal(SIGABRT, my_signal);
-    std::signal(SIGSEGV, my_signal);
-    std::signal(SIGBUS, my_signal);
+    {
+        // on an alternate stack: a call that recurses without end must still be able to close the trace
+        static char altstack[1 << 16];
+        stack_t ss;
+        ss.ss_sp = altstack;
+        ss.ss_size = sizeof altstack;
+        ss.ss_flags = 0;
+        sigaltstack(&ss, nullptr);
+        struct sigaction sa;
+        std::memset(&sa, 0, sizeof sa);
+        sa.sa_handler = my_signal;
+        sa.sa_flags = SA_ONSTACK;
+        sigemptyset(&sa.sa_mask);
+        const int sigs[] = {SIGABRT, SIGSEGV, SIGBUS, SIGFPE, SIGILL};
+        for (int sg : sigs) sigaction(sg, &sa, nullptr);
+    }
+    {
+        std::signal(SIGVTALRM, my_alarm);
+        struct itimerval tv;
+        const char* lim = std::getenv("C06_CALL_CPU_S");
+        int s = lim ? std::atoi(lim) : 2;
+        tv.it_interval.tv_sec = s > 0 ? s : 2;
+        tv.it_interval.tv_usec = 0;
+        tv.it_value = tv.it_interval;
+        setitimer(ITIMER_VIRTUAL, &tv, nullptr);
+    }
 
     std::string line;
     bool skipping = false;      // after a Desync line: ignore calls up to the next Reset
@@ -482,7 +1008,10 @@ int main()
         const std::string& op = e.str("op");
         int k = int(e.num("k")) - 1;
         const vj::value& a = e.at("a");
-        g_call = "{\"op\":\"" + op + "\",\"k\":" + std::to_string(k + 1) + ",\"a\":" + dump(a) + "}";
+        g_args = dump(a);
+        g_call = "{\"op\":\"" + op + "\",\"k\":" + std::to_string(k + 1) + ",\"a\":" + g_args + "}";
+        g_op = op;
+        g_k = k;
         if (k < 0 || k >= NA) script_error("k");
         if (a.has("j") && (a.num("j") < 1 || a.num("j") > NA)) script_error("j");
         result r;
@@ -491,6 +1020,11 @@ int main()
         {
             cleanup();
             skipping = false;
+            // the build this trace comes from; ids of payload objects never restart within one process
+            std::string o = "{\"op\":\"Reset\",\"k\":1,\"a\":{\"z\":0,\"fl\":\"" C06_FLAVOUR "\",\"noexc\":" + std::string(C06_NOEXC ? "true" : "false")
+                            + ",\"hi\":" + std::to_string(R.next - 1) + "}}\n";
+            std::fputs(o.c_str(), stdout);
+            continue;
         }
         else if (skipping)
         {
@@ -499,6 +1033,8 @@ int main()
         else
         {
             g_fuse = int(a.num("fuse", 0));
+            ++g_callno;
+            g_incall = true;
             try
             {
                 perform(op, k, a, r);
@@ -515,6 +1051,7 @@ int main()
             }
             catch (const desync& d)
             {
+                g_incall = false;
                 g_fuse = 0;
                 g_ev.clear();
                 skipping = true;
@@ -522,7 +1059,17 @@ int main()
                 std::fputs(o.c_str(), stdout);
                 continue;
             }
+            catch (const std::bad_cast&)
+            {
+                r = result();
+                r.exc = "bad_cast";
+            }
             catch (const std::exception&)
+            {
+                r = result();
+                r.exc = "other";
+            }
+            catch (...)
             {
                 r = result();
                 r.exc = "other";
@@ -531,10 +1078,11 @@ int main()
         }
         std::string evs = g_ev;
         g_ev.clear();
-        std::string st = "[" + proj(0) + "," + proj(1) + "," + proj(2) + "]";
+        std::string st = state();       // still "inside the call" for the watchdog and the crash handlers
         g_ev.clear();
-        std::string o = "{\"op\":\"" + op + "\",\"k\":" + std::to_string(k + 1) + ",\"a\":" + dump(a) + ",\"ev\":[" + evs + "],\"res\":" + r.json()
-                        + ",\"st\":" + st + "}\n";
+        g_incall = false;
+        std::string o = "{\"op\":\"" + op + "\",\"k\":" + std::to_string(k + 1) + ",\"a\":" + g_args + ",\"ev\":[" + evs + "],\"res\":" + r.json()
+                        + ",\"st\":" + st + ",\"spc\":" + spc() + "}\n";
         std::fputs(o.c_str(), stdout);
     }
     g_call.clear();
